@@ -7,4 +7,4 @@ Extraction "../ocaml/c07/model.ml" parse_region save_region parse_fv parse_file 
   asm asm_bios node_buf create_pad_file
   extract extract_list extract_region reload reload_list json_project render_path
   dir_save dir_save_tree extract_paths save_projected
-  paths_okb_list wf_treeb_list nodupb keys.
+  paths_okb_list wf_treeb_list nodupb keys guid_string guid_parse.
